@@ -147,11 +147,5 @@ pub fn vx_u64_from_dec(s: &str, radix: u32) -> (r: Result<u64, VxParseIntError>)
     unimplemented!()
 }
 
-/// ASCII strings take one byte per character (trusted; UTF-8)
-pub broadcast axiom fn axiom_byte_len_ascii(s: Seq<char>)
-    requires
-        forall|i: int| 0 <= i < s.len() ==> (#[trigger] s[i] as u32) < 0x80,
-    ensures
-        #[trigger] byte_len(s) == s.len(),
-;
+
 
